@@ -190,7 +190,9 @@ func (r *transport) RoundTrip(req *http.Request) (*http.Response, error) {
 	}
 
 	refIndex, found := r.vm.VaryHeadersMatch(refs, req.Header)
-	if !found {
+	if !found || refs.SharesResponseID(refIndex) {
+		// No stored variant matches, or the matching one shares its response
+		// ID with a different variant and what is stored may be either's.
 		return r.handleCacheMiss(req, urlKey, refs, -1)
 	}
 
